@@ -31,7 +31,8 @@ THEOREMS = ['Scalibr.Walk.C10_inodes', 'Scalibr.Walk.C10_size', 'Scalibr.Walk.C1
             'Scalibr.Walk.C10_cancel_between_run_cancelcfg']
 
 LAYER_THEOREMS = ['Scalibr.Overlay.C10_layer_bytes', 'Scalibr.Overlay.C10_layer_bytes_loader', 'Scalibr.Overlay.C10_layer_bytes_final',
-                  'Scalibr.Overlay.C10_layer_bytes_boundary', 'Scalibr.Overlay.C10_disk_bytes']
+                  'Scalibr.Overlay.C10_layer_bytes_boundary', 'Scalibr.Overlay.C10_disk_bytes',
+                  'Scalibr.Overlay.C10_disk_bytes_load', 'Scalibr.Overlay.C10_layer_bytes_image']
 
 
 def run(ctx):
